@@ -5,7 +5,7 @@ cd /repo || exit 2
 git diff --quiet || { echo "repo dirty"; exit 2; }
 git apply "$patch" || { echo "PATCH DOES NOT APPLY: $patch"; exit 3; }
 for p in "$@"; do
-  out=$(cd /verif && VCHECK_NO_MUTANTS=1 bin/vcheck -prop "$p" -no-evidence 2>&1)
+  out=$(cd /verif && VCHECK_NO_MUTANTS=1 ${VCHECK_BIN:-bin/vcheck} -prop "$p" -no-evidence 2>&1)
   rc=$?
   echo "== $p rc=$rc"; echo "$out" | grep -E "violated|UNDECIDED|CHECKER-ERROR|FLOOR" | head -8
 done
